@@ -474,6 +474,12 @@ func cmdXform(args []string) int {
 			add(t, fmt.Sprintf("contlead:%d", v), []int{10000, 65536, 4096}[(v+ti)%3], -1, []string{"NONE", "FPAQ"}[ti%2])
 		}
 	}
+	// executable images whose code section starts at every file offset modulo 4
+	for _, off := range []int{0x100, 0x101, 0x102, 0x103, 0x1000, 0x1001} {
+		for ti, t := range []string{"EXE", "EXE+LZ"} {
+			add(t, fmt.Sprintf("elfarm:%d", off), []int{20000, 70000}[ti], -1, "NONE")
+		}
+	}
 	// ... or end with a damaged character v bytes before the end
 	for v := 1; v <= 9; v++ {
 		for ti, t := range []string{"UTF", "TEXT+UTF", "UTF+LZ"} {
